@@ -136,6 +136,22 @@ CHECKS = {
             'value. The sequence "obtain - write - look at a new instance" is what the unit tests never do.',
             'Classes that cannot be constructed without unknown arguments (19 abstract/helper classes) are skipped and counted; '
             'reflection depth 3.', '3/C12'),
+    'C13': ('I', 'bounded-exhaustive enumeration of all single structure-aware mutations, HTTP framing and header variants and short raw byte strings of every request type the library produces, each executed on a pristine provider+consumer world through the real DispatchingRequestHandler and message converters',
+            'Corpus: all 34 request types captured from the loop-back wire (every service request incl. Subscribe/Renew/GetStatus/Unsubscribe, '
+            'Probe, TransferGet, all 9 notification types, SubscriptionEnd). Per type: every element deleted / duplicated / renamed / moved to '
+            'another or no namespace / swapped with its sibling / given an unexpected child; every attribute deleted / renamed / set to each of 15 '
+            'hostile values; every text set to each hostile value; every other action and 4 literal actions; every other path plus 16 path forms; '
+            '9 DOCTYPE / entity / XInclude variants at every text and attribute position; truncation after every tag (quick: every 4th); 62 '
+            'framing variants (content-length forms, chunked forms incl. truncation at 12 position classes, content-encodings, two requests, '
+            'HTTP/1.0, Expect) and 8 methods (quick: on 6 types); 10 headers x 21 values (quick: 7 types); all raw bodies of <= 3 (thorough 4) '
+            'of 12 tokens; all raw connections of <= 3 (4) of 11 tokens; GET on every path x 5 suffixes. Every input is raw bytes on an '
+            'in-memory socket for the real handler. Oracle: handler returns (no escaping exception, no spin on exhausted stream, no unbounded '
+            'read, watchdog), output is well-formed HTTP, a reached message converter answers a well-formed SOAP envelope (fault if >= 400), '
+            'entity / secret-file markers never appear in response or state, a rejected request leaves provider MDIB, consumer MDIB, '
+            'subscription tables and consumer subscriptions unchanged, unmutated requests are answered properly.',
+            'Single mutations only (no pairs); the socket layer is an in-memory stream where the peer has closed after the last byte, so '
+            'blocking on an open idle connection is not modelled; the world is rebuilt after every state-changing accepted exchange (fork per '
+            'case is 30-80 ms and serialises in this sandbox). Transaction-id counters are not part of the compared state.', '3/C13'),
     'C14': ('I+H', 'exhaustive enumeration of scope-URI pairs from a grammar against a reference matcher plus laws; explicit-state exploration of discovery datagram histories through the real reader/handlers against a reference model',
             'All ordered pairs over a URI grammar (3 schemes x 3 authorities x 0-2 (thorough 3) path segments over {x, X, x%2Fy, %78, '
             'empty} x trailing slash x query; quick: every third URI as probe scope) under rfc3986, default and strcmp0 matching are '
